@@ -5,6 +5,11 @@ sys.path.insert(0, '/verif/lib')
 import props
 
 LEVEL = {
+ "C18": ("Factory.tla derives the 36 documented implementations from the naming rule (24 arithmetic type names; HL prefix <=> layered; which arithmetics have a layered form) and TLC checks the table is a bijection of "
+         "size 36. The real factory is bound by trace validation: every name's parse / Display / clap string, clap's value list as a set, ~360 near-miss strings that must be rejected, and a Table event in which TLC requires "
+         "the fingerprint of each factory-built decoder on a seeded separating family to equal that of the generic decoder constructed directly from the named arithmetic type and schedule, and the 36 fingerprints to be pairwise distinct.",
+         "TLC + Json/IOUtils; harness splits names at the HL prefix; FNV digest equality as behaviour equality on the family.",
+         "TLA+ specification of the naming table + trace validation of parse/print/clap and behavioural fingerprints", "5 C18"),
  "C03": ("BP.tla is the textbook: flooding (all check messages from the previous variable messages, then all variable updates) and horizontal layered (checks in row order with immediate update), syndrome test after "
          "every full iteration, generic over arithmetic operators. TLC checks with exact integer min-sum that after #checks+1 forced iterations the LLRs on forests equal the tropical posterior (min-cost difference over all "
          "codewords) for both schedules. The real generic decoders are bound by trace validation: instantiated with the checker-supplied IntMinSum (value types scaled differently so a mis-routed conversion is visible), one "
